@@ -41,7 +41,15 @@ def _extra_replace():
     if "func (g *Group) Switch(e bool) bool {" not in open(dst).read():
         print("C17: MACHINERY: (*Group).Switch not found in %s" % src, file=sys.stderr)
         sys.exit(2)
-    return {src: dst}
+    out = {src: dst}
+    # the consumer scenarios run real client/server exchanges over loopback with the groups' real
+    # wrappers and transforms; a wrapped read waits for the full read timeout (c2/vars.go, 350 ms per
+    # exchange).  The derived copy only shortens that constant so that the quick tier stays in budget.
+    src2 = os.path.join(_REPO, "c2/vars.go")
+    dst2 = os.path.join(_VERIF, "build", "c17", "derived", "c2__vars.go")
+    _derive(src2, dst2, [("readTimeout = time.Millisecond * 350", "readTimeout = time.Millisecond * 40", 1)])
+    out[src2] = dst2
+    return out
 
 
 CFG = dict(
@@ -53,6 +61,8 @@ CFG = dict(
         "util.FastRandN(n) returns a value in [0, n): the draws are inputs of the model, theorems quantify over all draws in range; "
         "in the correspondence run the calls are redirected (derived overlay copy of group.go, only the pattern `util.FastRandN(` is rewritten) to a scripted source",
         "distinct *profile pointers are identified with their position in g.entries (Build allocates one profile per group)",
+        "consumer scenarios: real c2.Server / Listener / Session over TCP loopback; a derived copy of c2/vars.go shortens only readTimeout (350 ms -> 40 ms); "
+        "the spy Profile and the per-entry dialing connectors only forward and record",
     ],
     assumptions=["FastRandN results are in range (0 <= v < n); selector byte arbitrary (all six selectors, 0 = none, unknown bytes)"],
     level_text="Theorems over the Gallina model of (*Group).Switch / init / accessors / the weight order for ALL entry counts, ALL call histories "
